@@ -19,7 +19,7 @@ func (r Readers) Name() string {
 func (Readers) Property() string { return "C19" }
 
 func (r Readers) Generate(seed uint64, tier string) engine.Plan {
-	p := genReaders(seed, r.yield)
+	p := genReaders(seed, r.yield, strings.HasSuffix(tier, "/cold"))
 	if r.yield {
 		rr := engine.NewPRNG(seed ^ 0x1234)
 		p.Sched.Den = rr.PickInt(2, 4, 8, 16, 64)
@@ -239,7 +239,7 @@ func init() {
 		DeathInvariant:  raceDeath,
 		QuickRuns:       2400,
 		ThoroughSeconds: 600,
-		ProcsPerWorker:  4,
+		ProcsPerWorker:  8,
 		Real:            []string{"github.com/openacid/low/{bitmap,bmtree,bitstr,bitword,sigbits} compiled with -race from /repo's working tree", "Go race detector (ThreadSanitizer) used as an oracle"},
 		Stub:            append([]string{"task hand-off: raw read(2)/write(2) on pipes (invisible to the race detector)", "stack poisoner"}, commonStub...),
 		Build:           "race",
@@ -252,7 +252,7 @@ func init() {
 		},
 		QuickRuns:         6400,
 		ThoroughSeconds:   600,
-		ProcsPerWorker:    4,
+		ProcsPerWorker:    8,
 		AddressSpaceLimit: 8 << 30,
 		Real:              []string{"github.com/openacid/low/{bitmap,bmtree,bitstr,bitword,sigbits}: the real source with a verifhook.Yield() call inserted before every statement by cmd/yieldinject (go/ast rewrite of a scratch copy; /repo untouched)"},
 		Stub:              append([]string{"read-only arena (mmap + mprotect) holding every shared input", "stack poisoner"}, commonStub...),
